@@ -52,6 +52,10 @@ func shutdownScenario(t *rapid.T, pool []string) sim.Scenario {
 		}
 		sc.Cfg.Faults = append(sc.Cfg.Faults, f)
 	}
+	if rapid.IntRange(0, 5).Draw(t, "closefails") == 0 {
+		// the channel's Close does close it, and reports an error
+		sc.Cfg.Faults = append(sc.Cfg.Faults, sim.Fault{Op: "close", At: 1, Kind: "err"})
+	}
 	st := &State{IDOf: map[int]string{}, window: map[string]bool{}}
 	pushes := 0
 	traffic := func(n int, burstP int) {
